@@ -11,7 +11,7 @@ TB = ["modelled, not verified: std::path (Path::components, PathBuf Eq/Ord = com
 def run(prop, tier, seed, replay):
     v = vlib.Verdict(prop, tier, seed)
     st = common.front(v, prop)
-    res = common.correspondence(v, st, prop, "c19", "c19", tier, seed, replay,
+    res = common.correspondence(v, st, prop, "c19", "c19", tier, seed, replay, canary_kind="c19",
                                 model_desc="Model/{Glob,Plan,Listing}.v", impl_desc="plan.rs glob_match/is_excluded/needs_transfer/build_plan + meta.rs parse_remote_meta_output")
     common.verdict(v, st, prop, res)
     common.proof_coverage(v, st, prop, TB)
@@ -25,6 +25,6 @@ def run(prop, tier, seed, replay):
             glob_disagreements=res["stats"].get("release.glob_exhaustive_disagreements", 0),
             plan_4path_cases=res["stats"].get("release.class_plan_exhaustive_4path", 0)),
         rule="matcher: ALL pattern/text pairs up to the stated lengths over {a,b,*,?,.,/} compared in Rust (real glob_match vs table-based definition); a stride sample, every kept disagreement, 2000 metacharacter-in-text pairs, random long and backtrack-heavy pairs through the extracted model (glob_match and gm). is_excluded: random nested/unnormalised paths x pattern lists (empty, '/', trailing '/', with and without '/'). needs_transfer: extreme u64/i64 grid. build_plan: all 7^4 source/destination states of a 4-path universe {a, b/c, *b, b/d.tmp} (absent/absent, only dst, only src, both with same/size/mtime/both differing) x 7 exclude lists x both delete settings, plus random maps of up to 30 nested paths in shuffled insertion order. parse_remote_meta_output: generated find listings (tabs, newlines, dots, non-ASCII in names, fractional/integral/negative/overflowing times, '+' signs, overflowing sizes, missing fields, empty entries, './' variants, duplicate and path-equal keys). Implementation output compared line by line with the extracted model; property oracle = independent Rust set definitions. distinct_nontrivial = distinct case bodies that have a wildcard pattern and non-empty text / a non-empty pattern / a present destination / a non-empty plan / a non-empty parsed listing.",
-        samples=res["samples"] or ["(none)"], distribution=res["stats"], disagreements=res["dis"]))
+        canary=res.get("canary", {}), samples=res["samples"] or ["(none)"], distribution=res["stats"], disagreements=res["dis"]))
     v.assumptions = TB
     return v.finish()
